@@ -477,6 +477,10 @@ def emit_extract(gen, ex, repo_root, unit):
         elif b.kind == 'body':
             # right after the `{` that opens the function body
             inserts.append((rel_open + 1, order, '\n' + b.text(), b))
+    if not bodyless:
+        # marker right after the opening brace of the body (used by the vacuity canaries of the thorough tier)
+        mk = Block('body', '', ex.lineno)
+        inserts.append((rel_open + 1, -1, '/*@BODY:%s@*/' % ex.name, mk))
     # no insert may fall inside a replaced range
     for (p, q, _, _) in replaces:
         for (pos, _, _, b) in inserts:
